@@ -1,2 +1,120 @@
-(* C17 - placeholder while the proofs are being written *)
-From MafVerif Require Import lib.Base.
+(* C17 - Reported line numbers point at the offending line.
+   Property theorems only; proofs are in proofs/ReaderLines.v (with
+   proofs/ReaderTotal.v).  Physical numbering (spec/SpecHeader.v): with H the
+   number of leading pragma lines, pragma line k is line k, the column-name
+   line (or the place where it is missing) is line H+1 = phys_column H, the
+   j-th data line (0-based) is line H+2+j = phys_data H j.  The model computes
+   numbers by a look-ahead counter; the theorems equate them with the physical
+   positions for every file shape. *)
+From MafVerif Require Import lib.Base lib.Str model.RecordOps model.Validation model.Header
+  model.RecordParse model.Reader spec.SpecHeader spec.SpecModes proofs.ReaderModes proofs.ReaderTotal proofs.ReaderLines.
+
+(* Everything a Silent run collects:
+   - the reader's errors after opening are  pragma-line errors ++ errors
+     without a number ++ column-line errors, where every pragma-line error is
+     about the line it numbers (about_header_line: it is the diagnostic of
+     that very line, or the duplicate-key diagnostic for it), and the
+     column-line errors (count/name mismatch, or "missing column names" when
+     the input ends after the pragmas) carry H+1;
+   - the j-th record yielded is the parse of the j-th data line, remembers the
+     number H+2+j, and all its errors carry that number;
+   - the reader's final error list is those errors in order (plus, when the
+     iteration stopped on an ordering error, the errors of the record being
+     checked, numbered by its own line). *)
+Theorem C17_line_numbers_are_physical :
+  forall (C W K : Type) (sem : colsem C W) (registry : list (scheme (cls C)))
+         (key_of : sorder -> list str -> rec (payload C W) -> res K) (key_lt : K -> K -> bool),
+    (forall o cs r, match key_of o cs r with Ok _ => True | Raise e => e = ValueError end) ->
+    Forall scheme_wf registry ->
+    forall (lines : list str) (override : option (scheme (cls C))),
+      wf_override override ->
+      let hdr := fst (split_file lines) in
+      let H := length hdr in
+      let r := read_run sem registry key_of key_lt lines (Some Silent) override in
+      exists rd, run_init r = Ok rd /\
+        (exists perrs mid post, rd_errs rd = perrs ++ mid ++ post /\
+            Forall (about_header_line 0 (map rstrip_crlf hdr)) perrs /\ no_line mid /\
+            match snd (split_file lines) with
+            | None => post = [mkerr T_HEADER_MISSING_COLUMN_NAMES (Some (phys_column H))]
+            | Some _ => Forall (column_line_error H) post
+            end) /\
+        (forall j rj, nth_error (run_recs r) j = Some rj ->
+            exists c data l, snd (split_file lines) = Some (c, data) /\ nth_error data j = Some l /\
+              mline rj = Some (phys_data H j) /\ at_line (Some (phys_data H j)) (merrs rj) /\
+              exists lg, from_line sem (rstrip_crlf l) None (rd_scheme rd) (Some (phys_data H j))
+                                   (Some Silent) LgRoot = (lg, Ok rj)) /\
+        (exists tail, run_errs r = rd_errs rd ++ concat (map (@merrs C W) (run_recs r)) ++ tail /\
+                      at_line (Some (phys_data H (length (run_recs r)))) tail).
+Proof.
+  intros C W K sem registry key_of key_lt Hkey Hreg lines override Hov.
+  exact (reader_line_numbers sem registry key_of key_lt Hkey Hreg lines override Hov).
+Qed.
+Print Assumptions C17_line_numbers_are_physical.
+
+(* the numbers used above are positions in the input: pragma line k (0-based k
+   < H) is lines[k]; data line j is lines[H+1+j] *)
+Theorem C17_positions_in_the_input :
+  forall (lines : list str),
+    (forall k, (k < length (fst (split_file lines)))%nat ->
+               nth_error lines k = nth_error (fst (split_file lines)) k) /\
+    (forall c data j, snd (split_file lines) = Some (c, data) ->
+               nth_error lines (length (fst (split_file lines)) + 1 + j) = nth_error data j) /\
+    (forall c data, snd (split_file lines) = Some (c, data) ->
+               nth_error lines (length (fst (split_file lines))) = Some c).
+Proof.
+  intros lines. split; [|split].
+  - intros k. exact (split_file_header_index lines k).
+  - intros c data j. exact (split_file_data_index lines c data j).
+  - intros c data E. pose proof (split_file_app lines) as Ha.
+    destruct (split_file lines) as [h t]. simpl in *. subst t. rewrite Ha at 1.
+    rewrite nth_error_app2, Nat.sub_diag by lia. reflexivity.
+Qed.
+Print Assumptions C17_positions_in_the_input.
+
+(* pragma-line errors: every error from_lines' loop adds for the lines
+   numbered n+1.. is the diagnostic of the line it numbers *)
+Theorem C17_pragma_line_errors :
+  forall (ls : list str) (n : Z) recs errs,
+    exists added, snd (parse_header_lines n ls recs errs) = errs ++ added /\
+                  Forall (about_header_line n ls) added.
+Proof. intros ls n recs errs. exact (parse_header_lines_about ls n recs errs). Qed.
+Print Assumptions C17_pragma_line_errors.
+
+(* a Strict reader raises the first error a Silent reader collects (C03), so
+   the exception's line number is physical too: whole-run statement *)
+Theorem C17_strict_exception_number :
+  forall (C W K : Type) (sem : colsem C W) (registry : list (scheme (cls C)))
+         (key_of : sorder -> list str -> rec (payload C W) -> res K) (key_lt : K -> K -> bool),
+    (forall o cs r, match key_of o cs r with Ok _ => True | Raise e => e = ValueError end) ->
+    forall (lines : list str) override e0 rest,
+      run_errs (read_run sem registry key_of key_lt lines (Some Silent) override) = e0 :: rest ->
+      run_end (read_run sem registry key_of key_lt lines (Some Strict) override)
+      = EndRaise (MafFormat (etpe e0) (eline e0)).
+Proof.
+  intros C W K sem registry key_of key_lt Hkey lines override e0 rest He.
+  destruct (read_run_modes sem registry key_of key_lt Hkey lines override) as (_ & _ & rdS & _ & _ & _ & _ & _ & _ & _ & HT).
+  rewrite He in HT. exact (proj1 HT).
+Qed.
+Print Assumptions C17_strict_exception_number.
+
+(* ---------- non-vacuity: the column line is the last line (the input that
+   broke the pinned tree), and a defect on the second data line ---------- *)
+Definition t_sem : colsem unit unit :=
+  {| cs_build := fun _ _ => None; cs_invalid := fun _ _ => false; cs_str := fun _ _ => None;
+     cs_isinst := fun _ _ => true; cs_key_text := fun _ _ => None; cs_key_int := fun _ _ => None |}.
+(* a one-scheme registry: version "v", annotation "v" (basic), columns x, y *)
+Definition t_scheme : scheme (cls unit) :=
+  {| s_version := [118%N]; s_annot := [118%N]; s_cols := [([120%N], CPlain); ([121%N], CPlain)]; s_norestr := false |}.
+Definition t_run (lines : list str) :=
+  read_run t_sem [t_scheme] (skey_of t_sem (fun _ => None)) skey_lt lines (Some Silent) None.
+(* "#version v" / "a" : one column name where the scheme has two -> error 22 at line 2 = H+1 *)
+Example column_line_last :
+  run_errs (t_run [[35;118;101;114;115;105;111;110;32;118]%N; [97%N]]) = [mkerr 22 (Some 2)].
+Proof. vm_compute. reflexivity. Qed.
+(* "#version v" / "#k" / "x<TAB>y" / "1<TAB>2" / "3" : pragma error at 2, data error at 5 = H+2+1 *)
+Example defects_at_lines_2_and_5 :
+  run_errs (t_run [[35;118;101;114;115;105;111;110;32;118]%N; [35;107]%N; [120;9;121]%N; [49;9;50]%N; [51%N]])
+  = [mkerr 2 (Some 2); mkerr 17 (Some 5)].
+Proof. vm_compute. reflexivity. Qed.
+Example hypotheses_hold : Forall scheme_wf [t_scheme] /\ wf_override (@None (scheme (cls unit))).
+Proof. split; [repeat constructor; simpl; intuition discriminate|intros o H; discriminate]. Qed.
